@@ -267,3 +267,47 @@ pub unsafe extern "C" fn clock_adjtime(clk: libc::clockid_t, buf: *mut libc::tim
     }
     libc::syscall(libc::SYS_clock_adjtime, clk, buf) as libc::c_int
 }
+
+/// Sleeping is waiting for the clock: under a virtual clock, `nanosleep` / `clock_nanosleep` (what
+/// `std::thread::sleep` ends up in) advance it by the requested time and return at once. Without a virtual
+/// clock they are the real calls.
+fn virtual_sleep(ns: i128) -> bool {
+    if ARMED.try_with(|a| a.get()).unwrap_or(false) {
+        advance(ns);
+        return true;
+    }
+    if G_ARMED.load(Ordering::Relaxed) {
+        global_advance(ns.min(i64::MAX as i128) as i64);
+        return true;
+    }
+    false
+}
+
+/// # Safety
+/// Same contract as nanosleep(2).
+#[no_mangle]
+pub unsafe extern "C" fn nanosleep(req: *const libc::timespec, rem: *mut libc::timespec) -> libc::c_int {
+    if !req.is_null() && virtual_sleep((*req).tv_sec as i128 * NS + (*req).tv_nsec as i128) {
+        return 0;
+    }
+    libc::syscall(libc::SYS_nanosleep, req, rem) as libc::c_int
+}
+
+/// # Safety
+/// Same contract as clock_nanosleep(2).
+#[no_mangle]
+pub unsafe extern "C" fn clock_nanosleep(clk: libc::clockid_t, flags: libc::c_int, req: *const libc::timespec, rem: *mut libc::timespec) -> libc::c_int {
+    if !req.is_null() && flags == 0 && virtual_sleep((*req).tv_sec as i128 * NS + (*req).tv_nsec as i128) {
+        return 0;
+    }
+    // (returns the error number, not -1/errno)
+    let r = libc::syscall(libc::SYS_clock_nanosleep, clk, flags, req, rem);
+    if r == 0 { 0 } else { errno::errno().0 }
+}
+
+/// Really sleep (the harness's own waiting: watchdog, observers), whatever clock is armed.
+pub fn real_sleep(d: std::time::Duration) {
+    let req = libc::timespec { tv_sec: d.as_secs() as libc::time_t, tv_nsec: d.subsec_nanos() as libc::c_long };
+    // SAFETY: plain system call with a valid pointer
+    unsafe { libc::syscall(libc::SYS_nanosleep, &req as *const libc::timespec, std::ptr::null_mut::<libc::timespec>()) };
+}
